@@ -49,6 +49,14 @@ def gen_pass(rng, thorough, k):
         c = n // 100
         start = ydm_to_ms(year + 1, 1, 0) - int(offs[c])
         return TimePass(fmt, nums, start), {"kind": "newyear-1pct", "gaps": "none", "n": n, "n0": 1}
+    if k % 16 == 9:
+        # the shortest passes there are: one line (or the same line delivered twice), at exactly 00:00:00.000 or not
+        fmt = rng.choice(list(FMT))
+        n0 = rng.choice([1, 1, 37, 700])
+        nums = [n0] if rng.random() < 0.7 else [n0, n0]
+        year = rng.choice([1996, 2000, 2003]) if FMT[fmt]["family"] == "pod" else rng.choice([2000, 2004, 2009])
+        start = ydm_to_ms(year, rng.choice([1, 60, 366 if year % 4 == 0 else 365]), rng.choice([0, 0, 1, 43200000, 86399999]))
+        return TimePass(fmt, nums, start), {"kind": "one-line", "gaps": "none", "n": len(nums), "n0": n0}
     fmt = rng.choice(list(FMT))
     num, den = timesgen.period(fmt)
     n = rng.choice([1, 2, 3, 7, 60, 150, 400] + ([2000, 6000, 13000] if thorough else []) + ([1500] if k % 25 == 0 else []))
